@@ -18,13 +18,27 @@ THEOREM_BACKED = ('integer half: intvec_coords_in_square(_q), floatvec_coords_in
                   'exact-arithmetic geometric half for q >= 3: angle_bound_partial, angle_bound_exact (arccos(n.v/(|n||v|))'
                   ' <= 3*(2/(2^q-2)) for the exact octahedral projection and the nearest grid point incl. the repair '
                   'branch), octa_fixed_point (the generic decoder, tied to the Float32 model by '
-                  'coordsToUnitVector_eq_generic, returns v/c), angle_bound_exact_decoded')
-CORRESPONDENCE_ONLY = ('the float half: unit length within 1e-6, the +2e-6 allowance of the angular bound under the float '
-                       'roundings of encoder, decoder and normalisation, q = 2, NaN-freedom for zero / denormal input — '
-                       'evaluated per case on the implementation, not proved')
+                  'coordsToUnitVector_eq_generic, returns v/c), angle_bound_exact_decoded; float half for ANY rounding '
+                  'oracle: float_decoded_unit_length (q = 2..30, every grid point), float_angle_bound (q >= 3), '
+                  "float_angle_bound_q2, float_zero_input; source_canonicalize_is_model / source_isInDiamond_is_model' / "
+                  "source_invertDiamond_is_model' / source_octaDecode_is_model' (CanonicalizeOctahedralCoords, IsInDiamond,"
+                  " InvertDiamond and the canonicalized decoding transform, translated from clang's AST on every run, are "
+                  'the model functions)')
+CORRESPONDENCE_ONLY = ('that the compiled float arithmetic obeys the rounding models of the float theorems '
+                       '(float_decoded_unit_length, float_angle_bound, float_angle_bound_q2, float_zero_input) is assumed; the '
+                       'allowances those theorems give for binary32/binary64 (10u on the length, 144u + 120uE on the angle, '
+                       'pi/2 + 144u + 64uE for q = 2) are the ones evaluated per case on the implementation')
 EXPLANATION = ('integer core proved for all inputs; the angular bound proved in exact arithmetic (q >= 3); the float '
                'code is tied bit-exactly and its numeric bound evaluated on the implementation')
-ASSUMPTIONS = ["IEEE-754 binary32/binary64 arithmetic of g++ x86-64 SSE equals Lean's Float32/Float"]
+ASSUMPTIONS = ["IEEE-754 binary32/binary64 arithmetic of g++ x86-64 SSE equals Lean's Float32/Float",
+               "binary32 / binary64 arithmetic obeys the standard rounding model (Octa.DecModel with u = 2^-24, Octa.DoubleModel "
+               "with u = 2^-53): the float theorems of DracoProps.C07 are about every oracle with that property"]
+# allowances given by the theorems of DracoProps.C07 for binary32 (decoder) / binary64 (encoder)
+U32 = 2.0 ** -24
+U64 = 2.0 ** -53
+UNIT_TOL = 10 * U32                       # float_decoded_unit_length: | ||d|| - 1 | <= 10u
+ANGLE_SLACK = 144 * U32 + 120 * U64       # float_angle_bound: + 120 uE + 144 u   (~8.58e-6)
+ANGLE_SLACK_Q2 = 144 * U32 + 64 * U64     # float_angle_bound_q2: pi/2 + 64 uE + 144 u
 
 
 def oracle(q, v):
@@ -40,14 +54,15 @@ def oracle(q, v):
             return ("octa-nan", f"decoded normal {d} is not finite for `{case.op}`")
         ln = math.sqrt(sum(x * x for x in d))
         norm_in = math.sqrt(sum(float(x) * float(x) for x in v))
-        if abs(ln - 1.0) > 1e-6:
+        if abs(ln - 1.0) > UNIT_TOL:
             return ("octa-unit-length", f"decoded normal {d} has length {ln} for `{case.op}`")
         # the angle bound is stated for finite non-zero inputs (not denormal-length)
         if norm_in > 1e-35 and all(abs(x) <= 3.4028234663852886e38 for x in v):
             a = [x / norm_in for x in v]
             cr = [a[1] * d[2] - a[2] * d[1], a[2] * d[0] - a[0] * d[2], a[0] * d[1] - a[1] * d[0]]
             ang = math.atan2(math.sqrt(sum(x * x for x in cr)), sum(x * y for x, y in zip(a, d)))
-            bound = 3 * (2.0 / (2 ** q - 2)) + 2e-6
+            # proved bounds: q >= 3: 3*(2/(2^q-2)) + slack; q = 2: pi/2 + slack (below the property's 3 rad)
+            bound = (3 * (2.0 / (2 ** q - 2)) + ANGLE_SLACK) if q >= 3 else (math.pi / 2 + ANGLE_SLACK_Q2)
             if ang > bound:
                 return ("octa-angle", f"angle {ang} exceeds {bound} for `{case.op}` (decoded {d})")
         return None
